@@ -1,0 +1,78 @@
+//go:build verif
+
+package storage
+
+import (
+	"context"
+	"sync/atomic"
+)
+
+// VerifHooks is installed by verification harnesses (build tag verif only).
+// Trace is called at linearization points while l.mu is held, after the state
+// change; Gate is called before a critical section and may block (scheduler).
+type VerifHooks struct {
+	Trace func(ctx context.Context, ev string, l *PartitionLog, a, b int64)
+	Gate  func(ctx context.Context, point string, l *PartitionLog)
+}
+
+var verifHooks atomic.Pointer[VerifHooks]
+
+// SetVerifHooks installs (or, with nil, removes) the hooks.
+func SetVerifHooks(h *VerifHooks) { verifHooks.Store(h) }
+
+func verifTrace(ctx context.Context, ev string, l *PartitionLog, a, b int64) {
+	if h := verifHooks.Load(); h != nil && h.Trace != nil {
+		h.Trace(ctx, ev, l, a, b)
+	}
+}
+
+func verifGate(ctx context.Context, point string, l *PartitionLog) {
+	if h := verifHooks.Load(); h != nil && h.Gate != nil {
+		h.Gate(ctx, point, l)
+	}
+}
+
+func boolInt(b bool) int64 {
+	if b {
+		return 1
+	}
+	return 0
+}
+
+// VerifLogState is the projection of the lock-protected state of a PartitionLog.
+type VerifLogState struct {
+	Topic     string     `json:"topic"`
+	Partition int32      `json:"part"`
+	Next      int64      `json:"next"`
+	Buf       []int64    `json:"buf"` // base offsets of buffered batches
+	Flushing  bool       `json:"flushing"`
+	FB        []int64    `json:"fb"`   // base offsets of the in-flight (drained) batches
+	Segs      [][2]int64 `json:"segs"` // [base,last] of committed segments
+}
+
+// VerifState projects the lock-protected state. The caller holds l.mu (it is
+// meant to be called from the Trace hook).
+func (l *PartitionLog) VerifState() VerifLogState {
+	bases := func(bs []RecordBatch) []int64 {
+		out := make([]int64, 0, len(bs))
+		for _, b := range bs {
+			out = append(out, b.BaseOffset)
+		}
+		return out
+	}
+	segs := make([][2]int64, 0, len(l.segments))
+	for _, s := range l.segments {
+		segs = append(segs, [2]int64{s.baseOffset, s.lastOffset})
+	}
+	l.buffer.mu.Lock()
+	buf := bases(l.buffer.batches)
+	l.buffer.mu.Unlock()
+	return VerifLogState{Topic: l.topic, Partition: l.partition, Next: l.nextOffset, Buf: buf, Flushing: l.flushing, FB: bases(l.flushingBatches), Segs: segs}
+}
+
+// VerifStateLocked takes l.mu and projects the state (for use between steps).
+func (l *PartitionLog) VerifStateLocked() VerifLogState {
+	l.mu.Lock()
+	defer l.mu.Unlock()
+	return l.VerifState()
+}
